@@ -119,6 +119,25 @@ func evalC02(c *core.Ctx, e *eco.Eco, op string, args []string) []core.Violation
 		v, _ := strconv.Atoi(args[1])
 		return volumeRanges(c, c.NewW(), e, syn, args[0], v)
 	}
+	if op == "overwritten-operand" && len(args) >= 5 {
+		rg, err, pn := e.SafeNewRange(args[0])
+		x, _, _ := e.SafeNewVersion(args[1])
+		y, _, _ := e.SafeNewVersion(args[2])
+		bv, _, _ := e.SafeNewVersion(args[4])
+		if pn != nil || err != nil || rg == nil || x == nil || y == nil || bv == nil {
+			return nil
+		}
+		eco.SafeContains(rg, x)
+		if !eco.OverwriteInPlace(x, y) {
+			return nil
+		}
+		got, _ := eco.SafeContains(rg, x)
+		cv, _ := eco.SafeCompare(y, bv)
+		if want := sat(syn.ops[args[3]], cv); got != want {
+			return []core.Violation{{Eco: e.Name, Op: op, Args: args, Rule: "answer-for-the-old-value", Got: b2s(got), Want: b2s(want)}}
+		}
+		return nil
+	}
 	rs, ps := args[0], args[1]
 	pv, err, pn := e.SafeNewVersion(ps)
 	if pn != nil || err != nil || pv == nil {
@@ -429,6 +448,43 @@ func runC02(c *core.Ctx, ck *Check) {
 			}
 			tryWith(strings.Join(groups, osep), toks)
 			w.Count("shape:or-of-spans", 1)
+		}
+		// a version object that is OVERWRITTEN in place between two questions to the same range object (*x = *y: a caller
+		// who keeps a Version by value and updates it): the second answer must be the one for the new value. Result
+		// memos keyed on the operand's address assume an address never changes its value
+		for k := 0; k < c.Scale(40, 200) && len(bounds) >= 3; k++ {
+			sp := spell[r.IntN(len(spell))]
+			b := p.Strs[bounds[r.IntN(len(bounds))]]
+			txt := sp + b
+			if syn.listOnly {
+				txt += ","
+			}
+			rg, err, pn := e.SafeNewRange(txt)
+			if pn != nil || err != nil || rg == nil {
+				continue
+			}
+			as, bs := p.Strs[r.IntN(n)], p.Strs[r.IntN(n)]
+			x, _, _ := e.SafeNewVersion(as)
+			y, _, _ := e.SafeNewVersion(bs)
+			if x == nil || y == nil {
+				continue
+			}
+			eco.SafeContains(rg, x)
+			if !eco.OverwriteInPlace(x, y) {
+				continue
+			}
+			got, pn := eco.SafeContains(rg, x)
+			w.Count("evaluations", 1)
+			w.Count("overwritten_operand_questions", 1)
+			cv, _ := eco.SafeCompare(y, p.Vers[bidx[b]])
+			want := sat(syn.ops[sp], cv)
+			if pn != nil || got != want {
+				if reported["overwrite"] < 3 {
+					reported["overwrite"]++
+					w.Report(core.Violation{Eco: e.Name, Op: "overwritten-operand", Args: []string{txt, as, bs, sp, b}, Rule: "answer-for-the-old-value", Got: b2s(got), Want: b2s(want),
+						Detail: "Contains(range, x) was asked, then *x was overwritten with the second version, then Contains(range, x) was asked again"})
+				}
+			}
 		}
 		// long homogeneous lists (size thresholds: set-based fast paths for "8 or more exclusions", "16 or more exact
 		// alternatives"): AND lists of 8..40 != bounds with an optional lower / upper bound, OR lists of 16..40 exact versions
